@@ -14,6 +14,9 @@ type Syn struct {
 	Rng *rand.Rand
 	// Hostile: use names and literals with unusual characters.
 	Hostile bool
+	// Few: every name (columns, aliases, functions) comes from a pool of two,
+	// so that the same identifier recurs at many places of one program.
+	Few bool
 }
 
 var synBare = []string{"a", "b", "c", "x1", "_y", "col", "T", "U", "where", "asc", "desc", "nulls", "first", "last", "kind", "on", "with",
@@ -26,11 +29,19 @@ var synQuoted = []string{"q", "a b", "x`y", "we ird\"", "by", "and", "é", "1", 
 var synFuncs = []string{"f", "g", "sum", "min", "max", "not", "isnull", "isnotnull", "iff", "iif", "strcat", "tolower", "toupper", "now", "count", "countif", "coalesce", "asc", "where",
 	"NOT", "ISNULL", "IsNull", "STRCAT", "IFF", "COUNT", "ToLower", "NOW", "CountIf"}
 var synNums = []string{"0", "1", "2", "42", "007", "1.5", ".5", "5.", "1e3", "1E-2", "2.5e+3", "0x1F", "0XaB", "0e0", "18446744073709551615", "00.10"}
+// integer spellings around the widths integers are stored in
+var synInts = []string{"0", "00", "007", "2147483647", "2147483648", "4294967295", "4294967296", "9007199254740993", "9223372036854775807", "9223372036854775808", "18446744073709551615",
+	"18446744073709551616", "99999999999999999999999", "0x0", "0x7fffffff", "0x80000000", "0xFFFFFFFF", "0x7fffffffffffffff", "0x8000000000000000", "0xffffffffffffffff", "0x00000000000000000ff", "0X10"}
 var synStrs = [][2]string{{`'s'`, "s"}, {`"t"`, "t"}, {`''`, ""}, {`'it\'s'`, "it's"}, {`"a\nb"`, "a\nb"}, {`'a"b'`, `a"b`}, {`"x\\y"`, `x\y`},
 	{`'é;|)'`, "é;|)"}, {`"// no comment"`, "// no comment"}, {`'\t'`, "\t"}, {"'a\xffb'", "a\xffb"}, {`'\q'`, "q"}}
 var joinKinds = []string{"", "", "inner", "innerunique", "leftouter"}
 
-func (g *Syn) pick(l []string) string { return l[g.Rng.Intn(len(l))] }
+func (g *Syn) pick(l []string) string {
+	if g.Few && len(l) > 2 && (&l[0] == &synBare[0] || &l[0] == &synFuncs[0] || &l[0] == &synQuoted[0]) {
+		return []string{"x", "v"}[g.Rng.Intn(2)]
+	}
+	return l[g.Rng.Intn(len(l))]
+}
 
 // Ident makes a random identifier (never one of the four keywords bare).
 func (g *Syn) Ident() Ident {
@@ -46,6 +57,9 @@ func (g *Syn) BareIdent() Ident { return Ident{Name: g.pick(synBare)} }
 func (g *Syn) atom() *E {
 	switch g.Rng.Intn(8) {
 	case 0:
+		if g.Rng.Intn(4) == 0 {
+			return Num(g.pick(synInts))
+		}
 		return Num(g.pick(synNums))
 	case 1:
 		s := synStrs[g.Rng.Intn(len(synStrs))]
@@ -230,6 +244,9 @@ func (g *Syn) rowCount(depth int) *E {
 	case 1:
 		return &E{K: "name", Parts: []Ident{g.BareIdent()}}
 	default:
+		if g.Rng.Intn(4) == 0 {
+			return Num(g.pick(synInts))
+		}
 		return Num(fmt.Sprint(g.Rng.Intn(100)))
 	}
 }
